@@ -2075,6 +2075,8 @@ func rendersParam(g *ssa.Function, p *ssa.Parameter) bool {
 			return derives(x.X, d+1)
 		case *ssa.IndexAddr:
 			return derives(x.X, d+1)
+		case *ssa.FieldAddr:
+			return derives(x.X, d+1)
 		case *ssa.Index:
 			return derives(x.X, d+1)
 		case *ssa.Slice:
